@@ -46,7 +46,7 @@ def _is_num(v):
 def ev(node, env):
     if isinstance(node, ast.Constant):
         return node.value
-    if isinstance(node, (ast.Attribute, ast.Subscript)):
+    if isinstance(node, (ast.Attribute, ast.Subscript, ast.Call)):
         key = ast.unparse(node)
         if key in env:                      # e.g. "self.config['instructor_vars']" bound to a symbolic value by the caller
             return env[key]
